@@ -191,7 +191,13 @@ func ruleESCAPE(c *Ctx, onlyPkgs map[string]bool) {
 								continue
 							}
 						}
-						count[rt] += n
+						if rt.kind == rFree {
+							// a captured buffer outlives one invocation of the closure: the next
+							// invocation refills it
+							count[rt] += 2
+						} else {
+							count[rt] += n
+						}
 						where[rt] = ins.Pos()
 					}
 				}
@@ -242,6 +248,15 @@ func ruleESCAPE(c *Ctx, onlyPkgs map[string]bool) {
 				case *ssa.Send:
 					check(x.X, x.Pos(), "sent on a channel")
 				case *ssa.Call:
+					if g := x.Common().StaticCallee(); g != nil {
+						if gs := a.sum[g]; gs != nil {
+							for i := range gs.retains {
+								if i < len(x.Common().Args) {
+									check(x.Common().Args[i], x.Pos(), "passed to "+calleeName(g)+", which keeps the slice it is given")
+								}
+							}
+						}
+					}
 					if bi, ok := x.Common().Value.(*ssa.Builtin); ok && bi.Name() == "append" && len(x.Common().Args) == 2 {
 						// append(s, elems...): elements escape into s when they carry slices
 						el := x.Common().Args[1]
